@@ -221,7 +221,7 @@ func (w *World) collectPanics(n *HotNode) {
 	defer w.mu.Unlock()
 	for _, t := range w.tasks {
 		if t.Node == n.Idx && t.panicV != nil {
-			n.Panics = append(n.Panics, fmt.Sprintf("%s: %v", t.Name, t.panicV))
+			n.Panics = append(n.Panics, fmt.Sprintf("%s: %v @ %s", t.Name, t.panicV, panicSite(t.panicStack)))
 			t.panicV = nil
 		}
 	}
